@@ -651,9 +651,10 @@ func (x *Exec) intrinsic(st *State, fr *Frame, resInstr ssa.Instruction, name st
 		}
 		r := x.freshValue(st, "search", resT(0)).(Scalar)
 		st.assume(and(mk(SBool, "<=", intLit(0), r.T), mk(SBool, "<=", r.T, n)))
-		at, ok1 := x.evalPureClosure(st, fv, []Value{r})
+		// the predicate is only ever called with indices in [0, n): its run-time checks are proved under that guard
+		at, ok1 := x.evalPureClosureUnder(st, fv, []Value{r}, mk(SBool, "<", r.T, n))
 		prev := Scalar{mk(SInt, "-", r.T, intLit(1)), r.Typ}
-		bt, ok2 := x.evalPureClosure(st, fv, []Value{prev})
+		bt, ok2 := x.evalPureClosureUnder(st, fv, []Value{prev}, mk(SBool, ">", r.T, intLit(0)))
 		if !ok1 || !ok2 {
 			return nil, false
 		}
@@ -749,12 +750,19 @@ func (x *Exec) lockEvent(st *State, fr *Frame, kind string, lock Value) {
 // term over the current state (facts learnt on the way, e.g. ranges of loaded values, are kept). Run-time
 // checks inside it (index bounds) are not asserted: the caller uses the result only under a guard.
 func (x *Exec) evalPureClosure(st *State, fv FuncV, args []Value) (Value, bool) {
+	return x.evalPureClosureUnder(st, fv, args, tTrue)
+}
+
+func (x *Exec) evalPureClosureUnder(st *State, fv FuncV, args []Value, guard Term) (Value, bool) {
 	fn := fv.Fn
 	if fn.Blocks == nil || len(args) != len(fn.Params) {
 		return nil, false
 	}
 	side := st.clone()
 	side.frames = nil
+	if guard.S != "true" {
+		side.assume(guard)
+	}
 	nf := &Frame{fn: fn, regs: map[ssa.Value]Value{}, env: map[string]envEntry{}, loopSeen: map[*ssa.BasicBlock]bool{}, pure: true}
 	for i, p := range fn.Params {
 		nf.regs[p] = args[i]
